@@ -139,7 +139,7 @@ PROPS = {
             "every terminal element renders to the source form of its event (Data, Declaration, Comment, Pi, Char, Entity).  "
             "Element.__init__, MutableSequence.append (= insert at the end), collections.deque (as a list) and the terminal "
             "class constructors are assumed contracts.  NOT under contract: walk / find / strip / deepcopy / reset_children, "
-            "Tag/XTag/Root.render and Attribute.__str__ (generators, comprehensions over a dict subclass; VoidTag.render IS under contract: `<name>` with ` ` + str(attrs) exactly when bool(attrs), where bool(attrs) / str(attrs) are ghost views of the opaque Attribute), hence BOUNDED: "
+            "Tag/Root.render, XTag.render with overrides and Attribute.__str__ (generators, comprehensions over a dict subclass; VoidTag.render and, for the call without overrides, XTag.render ARE under contract: `<name>` / `<name/>` with ` ` + str(attrs) exactly when bool(attrs), where bool(attrs) / str(attrs) are ghost views of the opaque Attribute), hence BOUNDED: "
             "totality and tree consistency on all short strings and markup soup, exact round trip, strip/copy purity and "
             "find() vs an independent filter on grammar-generated well-formed HTML."
         ),
